@@ -1,6 +1,211 @@
 import BstreamVerif.Model.HubBurst
-import BstreamVerif.Spec.Consumer
+/-!
+# C05 — resuming from a cursor on the live hub equals never having disconnected
+
+`blocksFromCursor` on the head segment `seg` (the hub's retained canonical chain). For a cursor whose block and LIB
+lie on that chain (`fastPath`): nothing at or below the cursor LIB is delivered; every canonical block above the
+cursor block (the cursor block itself for an Undo cursor) is delivered exactly once, in chain order, as New above
+the hub LIB and new-and-irreversible up to it; canonical blocks between the cursor LIB and the cursor block that the
+hub has finalised meanwhile are announced Irreversible; for a final cursor the irreversible events are exactly the
+canonical final blocks after the cursor block. A cursor whose LIB is below the retained chain gets no source.
+For a cursor on a fork the burst is the undo walk to the junction followed by the burst of the junction cursor.
+That the burst leaves the *consumer at the cursor* on the hub's chain for every history is decided by the
+consumer-at-cursor monitor over the hubburst correspondence suite (kept seeded change
+C05-cursor-below-lib-assumed-canonical); it is not a theorem here.
+-/
 namespace BstreamVerif.Props.C05
-open BstreamVerif BstreamVerif.Forkable BstreamVerif.HubBurst BstreamVerif.Consumer
+open BstreamVerif BstreamVerif.ForkDB BstreamVerif.Forkable BstreamVerif.HubBurst
+
+/-- what the fast path does with one canonical block -/
+def fastEv (s : FState) (h : Blk) (c : Cur) (e : Entry) : Option Event :=
+  if e.blk.num ≤ c.lib.num then none
+  else if e.blk.num ≤ s.db.libRef.num then
+    let step := if e.blk.num > c.block.num || (isUndo c && e.blk.num == c.block.num) then Step.newIrreversible else Step.irreversible
+    some (wrap e step h.ref e.blk.ref none)
+  else if e.blk.num > c.block.num || (isUndo c && e.blk.num == c.block.num) then
+    some (wrap e .new h.ref s.db.libRef none)
+  else none
+
+theorem fastPath_eq (s : FState) (h : Blk) (seg : List Entry) (c : Cur) :
+    fastPath s h seg c = seg.filterMap (fastEv s h c) := rfl
+
+theorem fastEv_blk (s : FState) (h : Blk) (c : Cur) (e : Entry) (ev : Event) (he : fastEv s h c e = some ev) :
+    ev.blk = e.blk ∧ ev.head = h.ref := by
+  unfold fastEv at he
+  split at he
+  · cases he
+  · split at he
+    · injection he with he; subst he; exact ⟨rfl, rfl⟩
+    · split at he
+      · injection he with he; subst he; exact ⟨rfl, rfl⟩
+      · cases he
+
+/-- delivered blocks are canonical blocks, in chain order, none twice -/
+theorem fastPath_in_chain_order (s : FState) (h : Blk) (seg : List Entry) (c : Cur) :
+    ((fastPath s h seg c).map (·.blk)).Sublist (seg.map (·.blk)) := by
+  rw [fastPath_eq]
+  induction seg with
+  | nil => simp
+  | cons e r ih =>
+    rw [List.filterMap_cons]
+    cases hf : fastEv s h c e with
+    | none => simp only [List.map_cons]; exact List.Sublist.cons _ ih
+    | some ev =>
+      simp only [List.map_cons]
+      rw [(fastEv_blk s h c e ev hf).1]
+      exact List.Sublist.cons_cons _ ih
+
+/-- nothing at or below the cursor LIB is delivered again -/
+theorem nothing_at_or_below_cursor_lib (s : FState) (h : Blk) (seg : List Entry) (c : Cur) :
+    ∀ ev ∈ fastPath s h seg c, c.lib.num < ev.blk.num := by
+  intro ev hev
+  rw [fastPath_eq, List.mem_filterMap] at hev
+  obtain ⟨e, _, he⟩ := hev
+  have hb := (fastEv_blk s h c e ev he).1
+  unfold fastEv at he
+  split at he
+  · cases he
+  · rw [hb]; omega
+
+/-- every canonical block above the cursor block is delivered: as New above the hub LIB, new-and-irreversible up to it -/
+theorem everything_above_cursor_block (s : FState) (h : Blk) (seg : List Entry) (c : Cur) (e : Entry) (he : e ∈ seg)
+    (h1 : c.block.num < e.blk.num) (h2 : c.lib.num < e.blk.num) :
+    ∃ ev ∈ fastPath s h seg c, ev.blk = e.blk ∧
+      ev.step = (if e.blk.num ≤ s.db.libRef.num then Step.newIrreversible else Step.new) := by
+  rw [fastPath_eq]
+  have hnot : ¬ e.blk.num ≤ c.lib.num := by omega
+  by_cases hl : e.blk.num ≤ s.db.libRef.num
+  · refine ⟨wrap e .newIrreversible h.ref e.blk.ref none, ?_, rfl, by simp [wrap, hl]⟩
+    rw [List.mem_filterMap]
+    refine ⟨e, he, ?_⟩
+    unfold fastEv
+    simp [hnot, hl, h1]
+  · refine ⟨wrap e .new h.ref s.db.libRef none, ?_, rfl, by simp [wrap, hl]⟩
+    rw [List.mem_filterMap]
+    refine ⟨e, he, ?_⟩
+    unfold fastEv
+    simp [hnot, hl, h1]
+
+/-- a New/Undo cursor: nothing at or below the cursor block is delivered as New (an Undo cursor re-delivers its block) -/
+theorem nothing_new_below_cursor_block (s : FState) (h : Blk) (seg : List Entry) (c : Cur) (hu : isUndo c = false) :
+    ∀ ev ∈ fastPath s h seg c, (ev.step = .new ∨ ev.step = .newIrreversible) → c.block.num < ev.blk.num := by
+  intro ev hev hstep
+  rw [fastPath_eq, List.mem_filterMap] at hev
+  obtain ⟨e, _, he⟩ := hev
+  have hb := (fastEv_blk s h c e ev he).1
+  unfold fastEv at he
+  simp only [hu, Bool.false_and, Bool.or_false, decide_eq_true_eq] at he
+  split at he
+  · cases he
+  · split at he
+    · injection he with he
+      subst he
+      simp only [wrap] at hstep hb ⊢
+      by_cases hg : e.blk.num > c.block.num
+      · exact hg
+      · simp [hg] at hstep
+    · split at he
+      · rename_i hg
+        injection he with he
+        subst he
+        exact hg
+      · cases he
+
+/-- **final-blocks-only consumer on a final cursor**: the irreversible events are exactly the canonical final
+    blocks after the cursor LIB -/
+theorem final_events_exact (s : FState) (h : Blk) (seg : List Entry) (c : Cur) :
+    ((fastPath s h seg c).filter (fun ev => ev.step == .irreversible || ev.step == .newIrreversible)).map (·.blk) =
+      (seg.filter (fun e => decide (c.lib.num < e.blk.num) && decide (e.blk.num ≤ s.db.libRef.num))).map (·.blk) := by
+  rw [fastPath_eq]
+  induction seg with
+  | nil => rfl
+  | cons e r ih =>
+    rw [List.filterMap_cons]
+    by_cases h1 : e.blk.num ≤ c.lib.num
+    · have hf : fastEv s h c e = none := by simp [fastEv, h1]
+      rw [hf, List.filter_cons_of_neg (by simp; omega)]
+      exact ih
+    · by_cases h2 : e.blk.num ≤ s.db.libRef.num
+      · have hf : ∃ st, (st = Step.newIrreversible ∨ st = Step.irreversible) ∧ fastEv s h c e = some (wrap e st h.ref e.blk.ref none) := by
+          unfold fastEv
+          simp only [h1, if_false, h2, if_true]
+          by_cases hg : (decide (e.blk.num > c.block.num) || (isUndo c && e.blk.num == c.block.num)) = true
+          · exact ⟨_, Or.inl rfl, by simp [hg]⟩
+          · exact ⟨_, Or.inr rfl, by simp [hg]⟩
+        obtain ⟨st, hst, hf⟩ := hf
+        rw [hf]
+        simp only
+        rw [List.filter_cons_of_pos (by rcases hst with rfl | rfl <;> simp [wrap]),
+          List.filter_cons_of_pos (by simp; omega)]
+        simp only [List.map_cons, wrap]
+        rw [ih]
+      · rw [List.filter_cons_of_neg (by simp; omega)]
+        cases hf : fastEv s h c e with
+        | none => exact ih
+        | some ev =>
+          have : ev.step = .new := by
+            unfold fastEv at hf
+            simp only [h1, if_false, h2] at hf
+            split at hf
+            · injection hf with hf; subst hf; rfl
+            · cases hf
+          simp only
+          rw [List.filter_cons_of_neg (by simp [this])]
+          exact ih
+
+/-- **no partial source**: a cursor whose LIB lies below the retained canonical chain is refused -/
+theorem refused_below_window (s : FState) (fuel : Nat) (c : Cur) (h : Blk) (first : Entry) (rest : List Entry)
+    (hs : headSegment s = some (h, first :: rest)) (hlow : c.lib.num < first.blk.num) :
+    blocksFromCursor s (fuel + 1) c = none := by
+  unfold blocksFromCursor
+  rw [hs]
+  simp [hlow]
+
+/-- a hub without head segment serves no cursor -/
+theorem refused_without_chain (s : FState) (fuel : Nat) (c : Cur) (hs : headSegment s = none) :
+    blocksFromCursor s fuel c = none := by
+  cases fuel with
+  | zero => rfl
+  | succ n => unfold blocksFromCursor; rw [hs]
+
+/-- a cursor on the retained canonical chain is served by the fast path -/
+theorem served_on_chain (s : FState) (fuel : Nat) (c : Cur) (h : Blk) (first : Entry) (rest : List Entry)
+    (hs : headSegment s = some (h, first :: rest)) (hlib : ¬ c.lib.num < first.blk.num)
+    (hb : blockIn c.block.id (first :: rest) = true) (hl : blockIn c.lib.id (first :: rest) = true) :
+    blocksFromCursor s (fuel + 1) c = some (fastPath s h (first :: rest) c) := by
+  unfold blocksFromCursor
+  rw [hs]
+  simp [hlib, hb, hl]
+
+/-- a cursor on a fork: the burst is the undo walk (newest first, every undo naming the junction) followed by the
+    burst of the New cursor on the junction -/
+theorem fork_cursor_shape (s : FState) (fuel : Nat) (c : Cur) (h : Blk) (first : Entry) (rest : List Entry)
+    (hs : headSegment s = some (h, first :: rest)) (hlib : ¬ c.lib.num < first.blk.num)
+    (hoff : (blockIn c.block.id (first :: rest) && blockIn c.lib.id (first :: rest)) = false)
+    (out : List Event) (hout : blocksFromCursor s (fuel + 1) c = some out) :
+    ∃ undos jid j back, undoWalk s (first :: rest) c (s.db.entries.length + 1) c.block.id [] = some (undos, jid) ∧
+      s.db.find jid = some j ∧
+      blocksFromCursor s fuel ⟨.new, ⟨jid, j.blk.num⟩, h.ref, c.lib⟩ = some back ∧
+      out = undos.map (fun e => wrap e .undo h.ref c.lib (some j.blk.ref)) ++ back := by
+  unfold blocksFromCursor at hout
+  rw [hs] at hout
+  simp only [hlib, if_false, hoff, Bool.false_eq_true] at hout
+  cases hu : undoWalk s (first :: rest) c (s.db.entries.length + 1) c.block.id [] with
+  | none => rw [hu] at hout; cases hout
+  | some p =>
+    obtain ⟨undos, jid⟩ := p
+    rw [hu] at hout
+    simp only at hout
+    cases hj : s.db.find jid with
+    | none => rw [hj] at hout; cases hout
+    | some j =>
+      rw [hj] at hout
+      simp only at hout
+      cases hb : blocksFromCursor s fuel ⟨.new, ⟨jid, j.blk.num⟩, h.ref, c.lib⟩ with
+      | none => rw [hb] at hout; cases hout
+      | some back =>
+        rw [hb] at hout
+        injection hout with hout
+        exact ⟨undos, jid, j, back, rfl, hj, hb, hout.symm⟩
 
 end BstreamVerif.Props.C05
